@@ -21,17 +21,22 @@ TECH_ENGINE = ("TLA+ trace validation: event traces of the real engine replayed 
 CHECKS = {
     "C01": ("model_checking", "Every yield / optimisation result of the real engine is a step of the TLA+ specification "
             "whose clauses demand: ground, inside the declared domains, offsets respected, every posted relation "
-            "(Constraints!Sat) satisfied.", TRUST_ENGINE, TECH_ENGINE),
+            "(Constraints!Sat) satisfied. Also: one constraint alone in a solver on the boxes of the call scope, engine "
+            "traces of the shipped models (incl. the Golomb custom consistency algorithm), and every vector delivered by "
+            "the multiprocessing solver on real splits (spec/SolTrace.tla).", TRUST_ENGINE, TECH_ENGINE),
     "C02": ("model_checking", "Enumeration traces are replayed through NucsAbs: each yield must be fresh, the set yielded "
             "at the end must equal the brute-force solution set computed by TLC, for every configuration and posting "
             "order sampled.", TRUST_ENGINE, TECH_ENGINE),
     "C03": ("model_checking", "Optimisation traces (restart loop: incumbent, reset, tighten) replayed through NucsAbs: "
             "incumbents improve strictly, tightening keeps every better solution, the result is feasible and equals "
-            "the brute-force optimum, None iff infeasible.", TRUST_ENGINE, TECH_ENGINE),
+            "the brute-force optimum, None iff infeasible. Distributed optimisation: real splits and synthetic reducer "
+            "scenarios, every arrival order replayed through the real parent loop and judged by MPTrace.tla.",
+            TRUST_ENGINE, TECH_ENGINE + "; MPSolver/MPTrace for the distributed case"),
     "C04": ("model_checking", "Every pass of every trace is bounded by PassBound (count of constraint executions, "
             "observed by interposition; a pass reaching 4x the bound is truncated and rejected), hangs are confirmed by "
             "a deterministic line-count cap, exceptions and 'nothing to branch on' have no counterpart in the "
-            "specification.", TRUST_ENGINE, TECH_ENGINE),
+            "specification. The call corpus is also executed under a watchdog (a loop inside one propagator call never "
+            "returns to the engine).", TRUST_ENGINE, TECH_ENGINE),
     "C05": ("model_checking", "Every real filtering call of the exhaustive small-scope families (all boxes, all parameter "
             "vectors in scope) and of a seeded random corpus is replayed as one step of the TLA+ trace spec; TLC "
             "evaluates soundness (output inside input, every brute-force support kept, failure only without support).",
@@ -108,7 +113,8 @@ CHECKS = {
             "bounds-check build of the compiled code), over TLC-checked in-contract corpora"),
     "C17": ("model_checking", "NucsAbs carries the observed event counts in the layout of the statistics array; at every "
             "pass end, yield, return and at the end the 13 reported counters must equal them; conservation laws are "
-            "clauses of Done.", TRUST_ENGINE, TECH_ENGINE),
+            "clauses of Done. Multiprocessing totals: real worker streams, TLC-enumerated arrival orders, the real parent "
+            "loop, sums / max judged by MPTrace.tla.", TRUST_ENGINE, TECH_ENGINE),
     "C18": ("fault_enumeration", "Design: MPSolver.tla with Crash(w) - under weak fairness the parent always returns or "
             "raises (and the blocking-read design is shown to hang, as a negative control). Code: real processes, every "
             "worker x death point (before the first message, between messages, before the completion marker) x "
@@ -132,7 +138,8 @@ CHECKS = {
             "the literature; every object produced by the real models (real constructors, symmetry breaking on/off, "
             "bound consistency / shaving, several heuristics, 1..3 processes, the Golomb custom consistency algorithm) is "
             "validated by TLC, counts and optima are compared with the literature or TLC's own brute force, and the runs "
-            "of one instance are compared with each other.",
+            "of one instance are compared with each other. Engine traces of the models at small sizes, incl. the Golomb custom "
+            "consistency algorithm (which filters by itself before calling bound consistency), are replayed through NucsAbs.",
             "Trusted: TLC, spec/Models.tla (validators and literature constants), harness/rec_models.py; sizes within "
             "reach of the watchdog.",
             "TLA+ judgement (spec/Models.tla) of every object the real models produce + literature counts/optima"),
